@@ -9,8 +9,8 @@ clock advances, cursor rewinds and duplicate deliveries — every run's write hi
 * user functions do not re-enter the API for a run (`NoNested`; finding F20),
 * there is at most one timeout configuration per status (`OneTimeout`; finding F19).
 Each hypothesis excludes exactly one listed finding; the harness's per-history monitors report those histories against the
-real code. The property statements about paths (C02, C03), versions and identity (C16), stopped runs (C08) and data deletion
-(C15) are corollaries. -/
+real code. The property statements about paths (C02, C03), versions and identity (C16), stopped runs (C08), data deletion
+(C15) and one unfinished run per foreign ID (C09) are corollaries. -/
 namespace WorkflowModel.History
 open WorkflowModel Engine RS
 
@@ -79,7 +79,7 @@ theorem history_inv (cfg : Cfg) (h1 : OneTimeout cfg) (as : List Act) (hf : ∀ 
     | cons a as ih =>
       intro s hi
       exact ih (fun b hb => hf b (List.mem_cons_of_mem _ hb)) _ (stepAct_inv h1 s a (hf a (List.mem_cons_self ..)) hi)
-  exact this {} ⟨HistInv.init cfg, RelayInv.init⟩
+  exact this {} ⟨HistInv.init cfg, RelayInv.init, fun i j x y _ hx => by simp at hx⟩
 
 /-! ## reading a chain -/
 
@@ -141,10 +141,6 @@ theorem C03_first_write_initiated (i : Nat) (x : RunS) (w : Rec)
     (hx : (runActs cfg {} as).runs[i]? = some x) (hw : x.hist.getLast? = some w) : w.runState = 1 ∧ w.version = 1 :=
   let h := chain_last x.hist w ((history_inv cfg h1 as hf).hist i x hx).chain hw
   ⟨h.runState, h.version⟩
-
-omit h1 hf in
-theorem lifecycle_finished {a b : Int} (h : Lifecycle a b) (hfin : FinishedSpec a) : FinishedSpec b := by
-  unfold Lifecycle at h; unfold FinishedSpec at *; omega
 
 /-- … and a finished run stays finished: whatever is written later (any number of writes later) is finished too. -/
 theorem C03_finished_stays_finished (i : Nat) (x : RunS) (hx : (runActs cfg {} as).runs[i]? = some x) :
@@ -213,6 +209,13 @@ theorem C03_completed_at_terminal (i : Nat) (x : RunS) (w : Rec)
     Graph.isTerminal cfg.graph w.status = true :=
   (((history_inv cfg h1 as hf).hist i x hx).recs w hw).completedTerminal h5
 
+/-- C09: of two runs of one foreign ID the EARLIER created one is finished - so at most one run per foreign ID is unfinished, and
+it is the most recently created one (the run `Latest` answers with, which is what `Trigger` tests). -/
+theorem C09_one_unfinished_run (i j : Nat) (x y : RunS) (hij : i < j)
+    (hx : (runActs cfg {} as).runs[i]? = some x) (hy : (runActs cfg {} as).runs[j]? = some y) (hfid : x.fid = y.fid) :
+    ∃ h t, x.hist = h :: t ∧ FinishedSpec h.runState :=
+  (history_inv cfg h1 as hf).one i j x y hij hx hy hfid
+
 /-- C05 + histories: in every reachable state every write is pending in the outbox or published, and nothing else is. -/
 theorem C05_relay_with_history : RelayInv (runActs cfg {} as) := (history_inv cfg h1 as hf).relay
 
@@ -255,6 +258,13 @@ theorem fresh_asFresh : ∀ a ∈ asFresh, FreshAct a := by
 
 /-- the hypotheses are satisfiable by a history with a trigger, a relay cycle, a handled event and a controller call -/
 theorem nonvacuous_fresh : summary cfgW asFresh = [[(3, 7, 2, 9), (2, 5, 2, 9), (1, 1, 1, 5)]] ∧ histOK cfgW (runActs cfgW {} asFresh) = true := by
+  decide +kernel
+
+/-- … and by one in which a second run of the same foreign ID is triggered after the first finished (C09): a trigger while the
+first was still running was refused, so there are two runs, not three -/
+theorem nonvacuous_two_runs :
+    summary cfgW ([.trigger 0 1 5 {}, .trigger 0 1 4 {}, .step .outbox {}, .step sp {}, .step sp { outcomes := [.ret 2 9] }, .trigger 0 1 6 {}]) =
+      [[(2, 5, 2, 9), (1, 1, 1, 5)], [(1, 1, 1, 6)]] := by
   decide +kernel
 
 theorem illegal_of_histOK_false {cfg : Cfg} {s : Sys} (h : histOK cfg s = false) : ¬ Inv cfg s := by
